@@ -119,6 +119,17 @@ func (s *Sim) Run() {
 
 // Emitted returns the packets emitted since the previous call.
 func (s *Sim) Emitted() []vnet.Packet {
+	var p []vnet.Packet
+	for _, x := range s.EmittedAll() {
+		if x.Proto != "dial" {
+			p = append(p, x)
+		}
+	}
+	return p
+}
+
+// EmittedAll additionally returns the connection attempts (Proto "dial") the program made.
+func (s *Sim) EmittedAll() []vnet.Packet {
 	all := vnet.LogSince(s.mark)
 	s.mark = vnet.LogLen()
 	var p []vnet.Packet
